@@ -258,7 +258,12 @@ def build (kind, rng):
     ie.payload = payload[:200]
     vx = pkt.vxlan(vni=rint(rng, 24))
     vx.payload = ie
-    u = pkt.udp(srcport=rint(rng, 16) | 1024, dstport=4789)
+    # (a source port that is itself a well-known one - 5353 is reachable
+    #  here - makes the UDP demultiplexer pick that application's parser
+    #  first; not a round-trip matter)
+    sp = rint(rng, 16) | 1024
+    if sp in (5353, 4789): sp += 1
+    u = pkt.udp(srcport=sp, dstport=4789)
     u.payload = vx
     set_l3(0x0800, ip4(17, u))
   elif kind == "igmp":
